@@ -702,8 +702,15 @@ func (service *serviceType) handleBuildRequest(id uint32, request map[string]int
 						// because our cancel is supposed to cancel the current build, not
 						// some independent future build.
 						activeBuild.rebuildWaitGroup.Add(1)
+
+						// Capture the context while holding the mutex. A "dispose" request
+						// clears "activeBuild.ctx" and may be processed before the goroutine
+						// below runs.
+						ctx := activeBuild.ctx
 						go func() {
-							activeBuild.ctx.Cancel()
+							if ctx != nil {
+								ctx.Cancel()
+							}
 
 							// Lock the mutex because "sync.WaitGroup" isn't thread-safe.
 							// But use the wait group that was active at the time the
